@@ -115,6 +115,37 @@ func ruleC17Srv(c *Ctx) {
 			c.Bad(rule, FnName(fn)+" | second open is refused", "", "opening an already open replica reports success: two controllers that both saw state closed are both attached", c.witness(ws[0]))
 		}
 	}
+	// s.r is replaced only by an instance whose construction succeeded, and cleared only by Close/Delete
+	for _, fn := range c.P.methodsOf("replica", "Server") {
+		R := NewRenderer(fn)
+		for _, st := range StoresTo(fn, "Server", "r") {
+			v := st.(*ssa.Store).Val
+			key := FnName(fn) + " | s.r = " + R.V(v)
+			if isNilConst(strip(v)) {
+				switch FnName(fn) {
+				case fSrv + "Close", fSrv + "Delete", fSrv + "DeleteAll":
+					c.OK(rule, key, c.P.InstrPos(st), "instance dropped by close/delete", false)
+				default:
+					c.Bad(rule, key, c.P.InstrPos(st), "the open instance is dropped outside Close/Delete: the server reports 'closed' while the controller is still attached", nil)
+				}
+				continue
+			}
+			// producer call
+			var prod ssa.Instruction
+			for _, x := range phiInputs(strip(v)) {
+				if ex, ok := x.(*ssa.Extract); ok {
+					if cl, ok := ex.Tuple.(*ssa.Call); ok {
+						prod = cl
+					}
+				}
+			}
+			if prod == nil {
+				c.Bad(rule, key, c.P.InstrPos(st), "cannot identify the call that produced the new instance", nil)
+				continue
+			}
+			c.Guard(rule, fn, []ssa.Instruction{st}, "s.r = new instance", nil, Need{Desc: "the producing call succeeded (a failed call returns a nil instance)", Edge: successEdgesOfCall(fn, prod)})
+		}
+	}
 	// Replica.Close: CLOSED unconditionally, before close()
 	if fn := c.Anchor(rule, fRep+"Close"); fn != nil {
 		R := NewRenderer(fn)
@@ -224,6 +255,13 @@ func ruleC17Matrix(c *Ctx) {
 	for _, a := range []string{"snapshot", "removedisk", "replacedisk", "revert", "prepareremovedisk", "resize", "open", "create"} {
 		chk("rebuilding forbids "+a, !m["rebuilding"][a], fmt.Sprintf("rebuilding allows %s = %v", a, m["rebuilding"][a]))
 	}
+	// the states of an open replica (open, dirty) accept everything the controller / sync agent
+	// issues against a live replica; the two rows differ only in setrevisioncounter (promotion
+	// happens before the first counted write)
+	for _, a := range []string{"resize", "close", "setrebuilding", "setlogging", "snapshot", "reload", "removedisk", "replacedisk", "revert", "prepareremovedisk", "setreplicamode", "updatecloneinfo", "setcheckpoint", "start"} {
+		chk("open replica accepts "+a, m["open"][a] && m["dirty"][a], fmt.Sprintf("%s allowed in open=%v dirty=%v (an operation the controller issues against a live replica is refused with 404 in one of the two open states)", a, m["open"][a], m["dirty"][a]))
+	}
+	chk("setrevisioncounter only before the first counted write", m["open"]["setrevisioncounter"] && !m["dirty"]["setrevisioncounter"] && !m["closed"]["setrevisioncounter"], fmt.Sprintf("setrevisioncounter allowed in open=%v dirty=%v closed=%v", m["open"]["setrevisioncounter"], m["dirty"]["setrevisioncounter"], m["closed"]["setrevisioncounter"]))
 	for _, a := range []string{"close", "setrebuilding", "reload"} {
 		chk("rebuilding allows "+a, m["rebuilding"][a], fmt.Sprintf("rebuilding allows %s = %v (needed to finish / abort a rebuild)", a, m["rebuilding"][a]))
 	}
